@@ -588,6 +588,27 @@ func (h *Host) register() {
 			h.st.SetNumberValue(name, 7)
 			return variable.NewNumber(7), nil
 		})
+		// prr(name, v): a host function that registers the handler of command `name` again (a new closure) and answers v:
+		// written as an argument of that very command, it replaces the handler while the statement is being evaluated
+		h.dr.AddFunction("prr", func(args []*variable.Value) (*variable.Value, error) {
+			if len(args) != 2 || args[0] == nil || args[0].String == nil || args[1] == nil {
+				return nil, errors.New("prr expects a name and a value")
+			}
+			v, ok := fromYarn(args[1])
+			if !ok {
+				return nil, errors.New("prr expects a value")
+			}
+			var gv any = v.S
+			switch v.K {
+			case 'n':
+				gv = v.N
+			case 'b':
+				gv = v.B
+			}
+			h.call("fn", "prr", *args[0].String, gv)
+			h.Reregister(*args[0].String)
+			return toYarn(v), nil
+		})
 		must(h.dr.ConvertAndAddFunction("pboom", func(k float64) {
 			h.call("fn", "pboom", k)
 			h.hostPanicked = true
